@@ -71,7 +71,7 @@ Print Assumptions C17_spec_accepts_model_partial.
    with an int, the first one's started validation phase is still finished
    (with the failure as outcome), execution never starts, one error. *)
 Example C17_nonvacuous :
-  do_model (CExec [ROk])
+  do_model (CExec false [Node 0 ROk TNow []])
     [mkExt 1 BOk (SFn BOk) (SFn BOk) (SFn BOk) [] HTrue BOk;
      mkExt 2 BOk (SFn BOk) (SPanic PVInt) (SFn BOk) [] HTrue BOk] =
   Done [EInit 0 true; EInit 1 true;
